@@ -216,6 +216,110 @@ def rule_syndrome_table(repo: Repo, rep: Report) -> int:
     return n + rule_syndrome_rest(repo, rep, ci)
 
 
+def syndrome_forward_evaluated(repo: Repo, ci):
+    """SyndromeLookupDecoder.forward (class helpers and the block-wise utility followed; the encoder's syndrome and message
+    extraction replaced by the checker's own for the systematic (7,4) Hamming code, the table by the checker's
+    coset leaders) evaluated on all 16 codewords without and with each single error - as single words, as one batch, and
+    with return_errors=True: the message of the transmitted codeword (and the flipped position) must come back."""
+    from ..constfold import PySeq, Unfoldable
+    from ..frag import FragRaise, FragReturn, coverage_scope, run_fragment
+
+    fwd = repo.method(ci, "forward")
+    H = [[1, 1, 0, 1, 1, 0, 0], [1, 0, 1, 1, 0, 1, 0], [0, 1, 1, 1, 0, 0, 1]]
+    n_, k_ = 7, 4
+
+    def syn(w):
+        return [sum(h * int(round(float(x))) for h, x in zip(r, w)) % 2 for r in H]
+
+    def s2i(sv):
+        return int("".join(str(int(b)) for b in sv), 2)
+
+    def calc(w, *a, **kw):
+        if isinstance(w, list) and w and isinstance(w[0], list):
+            return [[float(v) for v in syn(r)] for r in w]
+        return [float(v) for v in syn(w)]
+
+    def extract(w, *a, **kw):
+        if isinstance(w, list) and w and isinstance(w[0], list):
+            return [list(r[:k_]) for r in w]
+        return list(w[:k_])
+
+    funcs = {f"self.{nm}": m.node for nm, m in ci.methods.items() if nm not in ("forward", "__init__", "_build_syndrome_table", "_generate_error_patterns")}
+    for mi_ in repo.modules.values():
+        if mi_.relpath == "kaira/models/fec/utils.py":
+            funcs.update({nm: f.node for nm, f in mi_.functions.items()})
+    # the decoder's own key conversion decides how the table is keyed
+    key_fi = ci.methods.get("_syndrome_to_int")
+    table = {}
+    for pat in [[0] * n_] + [[1 if j == i else 0 for j in range(n_)] for i in range(n_)]:
+        if key_fi is None:
+            return None, "_syndrome_to_int not found"
+        try:
+            run_fragment(key_fi.body, {[p for p in key_fi.params if p != "self"][0]: [float(v) for v in syn(pat)]}, {}, max_steps=20000)
+            return None, "key conversion returns nothing"
+        except FragReturn as ret:
+            key = ret.value
+        except (Unfoldable, FragRaise, TypeError, IndexError, ValueError) as exc:
+            return None, f"key conversion not evaluable ({exc})"
+        if isinstance(key, list) or key in table:
+            return None, "key conversion is not an injective integer"
+        table[key] = [int(v) for v in pat]
+    gens = [[1, 0, 0, 0, 1, 1, 0], [0, 1, 0, 0, 1, 0, 1], [0, 0, 1, 0, 0, 1, 1], [0, 0, 0, 1, 1, 1, 1]]
+    words, wants, errs = [], [], []
+    for mval in range(16):
+        msg = [(mval >> (3 - t)) & 1 for t in range(4)]
+        cw = [sum(msg[i] * gens[i][j] for i in range(4)) % 2 for j in range(n_)]
+        assert syn(cw) == [0, 0, 0]
+        for e in [None] + list(range(n_)):
+            w = [float(b ^ (1 if j == e else 0)) for j, b in enumerate(cw)]
+            words.append(w)
+            wants.append([float(b) for b in msg])
+            errs.append([1.0 if j == e else 0.0 for j in range(n_)])
+    attrs0 = {"self.code_length": n_, "self.code_dimension": k_, "self._syndrome_table": table}
+    ctors = {"self.encoder.calculate_syndrome": calc, "self.encoder.extract_message": extract}
+    scope = coverage_scope()
+    scope.__enter__()
+    try:
+        runs = [("single word", w, wt, er, {}) for w, wt, er in list(zip(words, wants, errs))[:24:5]] + [("batch of 128 words", words, wants, errs, {}), ("batch, return_errors=True", words[:16], wants[:16], errs[:16], {"return_errors": True}), ("single word, return_errors=True", words[3], wants[3], errs[3], {"return_errors": True})]
+        for what, rec, want, err, kw in runs:
+            try:
+                run_fragment(fwd.body, {"received": rec, "args": PySeq([]), "kwargs": dict(kw)}, dict(attrs0), funcs=funcs, ctors=ctors, materialise=True, max_steps=4000000, attrs_live=True)
+                return None, "no value returned"
+            except FragReturn as ret:
+                got = ret.value
+            except (Unfoldable, FragRaise, TypeError, IndexError, ValueError, KeyError) as exc:
+                return None, f"{what}: {exc}"
+            got_err = None
+            if kw.get("return_errors"):
+                if not (isinstance(got, list) and len(got) == 2):
+                    return None, f"{what}: the result is not a (messages, errors) pair"
+                got, got_err = got[0], got[1]
+
+            def num(z):
+                return [num(t) for t in z] if isinstance(z, list) else float(z)
+
+            try:
+                g_, e_ = num(got), (num(got_err) if got_err is not None else None)
+            except (TypeError, ValueError):
+                return None, f"{what}: the result is not numeric"
+            if g_ != want:
+                i_ = next((i for i, (a_, b_) in enumerate(zip(g_, want)) if a_ != b_), 0) if isinstance(want[0], list) else 0
+                r_, w_, x_ = (rec[i_], want[i_], g_[i_] if isinstance(g_, list) and i_ < len(g_) else g_) if isinstance(want[0], list) else (rec, want, g_)
+                return VIOLATION, f"{what}: the received word {[int(v) for v in r_]} (a codeword of the (7,4) Hamming code with at most one flipped bit) is decoded to {x_}; the transmitted message is {[int(v) for v in w_]}"
+            if e_ is not None and e_ != err:
+                return VIOLATION, f"{what}: the reported error patterns differ from the flipped positions"
+    finally:
+        scope.__exit__()
+    # the tail after the block-wise call only re-arranges (messages, errors) for multi-block input with return_errors=True: not covered here
+    bw = [c_.lineno for c_ in ast.walk(fwd.node) if isinstance(c_, ast.Call) and (call_name(c_) or "") == "apply_blockwise"]
+    tail_from = min(bw) if bw else 10**9
+    miss = [(st_, fl_) for st_, fl_ in scope.missed([fwd.node]) if st_.lineno <= tail_from]
+    if miss:
+        st_, fl_ = miss[0]
+        return None, f"branches never reached by the samples (line {st_.lineno})"
+    return OK, "128 words (16 codewords x no / one flipped bit), single words and batches, with and without error patterns: the transmitted message (and the flipped position) is returned (the re-arrangement for multi-block input with return_errors=True is not covered)"
+
+
 def error_patterns_evaluated(gp: FuncInfo):
     """_generate_error_patterns(weight) evaluated (own arithmetic, the recursive closure followed with the enclosing scratch
     buffer and result list shared) for n = 4, 5, 6 and every weight: the rows must be exactly the C(n, w) distinct 0/1
@@ -285,7 +389,11 @@ def rule_syndrome_rest(repo: Repo, rep: Report, ci) -> int:
         n += 1
     # forward: XOR the leader, extract with the encoder
     fwd = repo.method(ci, "forward")
-    corr = [s for s in ast.walk(fwd.node) if isinstance(s, ast.Assign) and unparse(s.targets[0]) == "corrected"]
+    fst_, fd_ = syndrome_forward_evaluated(repo, ci)
+    if fst_ is not None:
+        rep.add("COSET-LEADER", fwd, "forward evaluated on every codeword of the (7,4) Hamming code with no and with one error: single words, a batch, error patterns requested", fst_, fd_, node=fwd.node)
+        n += 4
+    corr = [] if fst_ is not None else [s for s in ast.walk(fwd.node) if isinstance(s, ast.Assign) and unparse(s.targets[0]) == "corrected"]
     from .c12 import _tt_eval
 
     for s_ in corr:
@@ -300,11 +408,12 @@ def rule_syndrome_rest(repo: Repo, rep: Report, ci) -> int:
         else:
             rep.violation("COSET-LEADER", fwd, f"correction: {unparse(s_)}", f"truth table over (bit, error) is {table}, not XOR [0,1,1,0]: the leader is not added over GF(2)", node=s_)
         n += 1
-    rep.floor("syndrome-lookup correction sites", len(corr), 2)
-    ext = [c for c in ast.walk(fwd.node) if isinstance(c, ast.Call) and attr_chain(c.func) == "self.encoder.extract_message"]
-    rep.expect(len(ext) == 2 and all(unparse(c.args[0]) == "corrected" for c in ext), "COSET-LEADER", fwd, "message = self.encoder.extract_message(corrected)", "the encoder's own extraction of the corrected word", "the message is not extracted from the corrected word by the encoder")
-    look = [c for c in ast.walk(fwd.node) if isinstance(c, ast.Call) and attr_chain(c.func) == "self._syndrome_table.get"]
-    rep.expect(len(look) == 2 and all(unparse(c.args[0]) == "syndrome_int" for c in look), "COSET-LEADER", fwd, "leader = self._syndrome_table.get(syndrome_int, zeros)", "lookup by the received word's own syndrome", "table lookup changed")
+    if fst_ is None:
+        rep.floor("syndrome-lookup correction sites", len(corr), 2)
+        ext = [c for c in ast.walk(fwd.node) if isinstance(c, ast.Call) and attr_chain(c.func) == "self.encoder.extract_message"]
+        rep.expect(len(ext) == 2 and all(unparse(c.args[0]) == "corrected" for c in ext), "COSET-LEADER", fwd, "message = self.encoder.extract_message(corrected)", "the encoder's own extraction of the corrected word", "the message is not extracted from the corrected word by the encoder")
+        look = [c for c in ast.walk(fwd.node) if isinstance(c, ast.Call) and attr_chain(c.func) == "self._syndrome_table.get"]
+        rep.expect(len(look) == 2 and all(unparse(c.args[0]) == "syndrome_int" for c in look), "COSET-LEADER", fwd, "leader = self._syndrome_table.get(syndrome_int, zeros)", "lookup by the received word's own syndrome", "table lookup changed")
     # the table belongs to this decoder's encoder: built in __init__ from self.encoder, not shared
     init = repo.method(ci, "__init__")
     tb = [s for s in stmts_of(init.body) if isinstance(s, ast.Assign) and attr_chain(s.targets[0]) == "self._syndrome_table"]
